@@ -123,7 +123,7 @@ def cache_key(tier, seed):
     for p in (C.VH, C.DRIVER):
         st = os.stat(p)
         h.update(("%s:%d:%d" % (p, st.st_mtime_ns, st.st_size)).encode())
-    h.update(("v20:%s:%s" % (tier, seed)).encode())
+    h.update(("v22:%s:%s" % (tier, seed)).encode())
     return h.hexdigest()[:16]
 
 
